@@ -47,6 +47,11 @@ Definition pending_window (lt klt : queue -> queue -> bool) (out : list queue) :
                      (slice (fst ij) (snd ij) out))
           (inversions lt out).
 
+(* ---- domain of the share based application orders: no NaN and no negative share ---- *)
+Definition share_ok (s : f64) : bool := negb (f_is_nan s) && negb (f_ltb s f_zero).
+Definition app_ok (which : N) (g : ores) (a : app) : bool :=
+  if (which <? 2)%N then forallb share_ok (GetShares (a_alloc a) g) else true.
+
 (* ---- asks ---- *)
 Definition req_sorted (s : list ask) : bool := sortedb askBefore s.
 (* the asks that were inserted and not removed (histories never insert a key that is present) *)
